@@ -26,6 +26,8 @@ type World struct {
 	nextPort int
 	nextConn int
 	nextDg   int
+	// EvSeq is a run-global counter of socket events (finer than scheduler steps).
+	EvSeq int
 
 	// HostIP4/HostIP6 are the proxy host's outbound source addresses.
 	HostIP4, HostIP6 net.IP
